@@ -30,6 +30,24 @@ pub struct Case {
     /// call history: a Jacobian of this other robot at the same joints, and one of the same robot with another step, are computed first
     #[serde(default)]
     pub other: Option<RobotSpec>,
+    /// length unit of the model: 1 = metres, 1000 = the same robot, tool and base written in millimetres (lengths are already scaled in `robot`, `tool`, `base`)
+    #[serde(default = "one")]
+    pub unit: f64,
+}
+
+fn one() -> f64 {
+    1.0
+}
+
+/// The Jacobian with its linear rows expressed in metres (divided by the length unit of the model).
+fn balanced(j: &Matrix6<f64>, unit: f64) -> Matrix6<f64> {
+    let mut m = *j;
+    for r in 0..3 {
+        for c in 0..6 {
+            m[(r, c)] /= unit;
+        }
+    }
+    m
 }
 
 /// Geometric Jacobian from the model: column i = sign_i * (a_i x (p_tcp - o_i); a_i).
@@ -63,7 +81,7 @@ impl Property for C15 {
         "C15"
     }
     fn rule(&self) -> String {
-        "robots (bare, Tool, Base, Tool over Base; all sign/offset conventions; sign 0 on J6 for dof 5) x joint vectors x differencing step in {1e-7,1e-6,1e-5} x twists/wrenches (|v|,|w| < 3). \
+        "robots (bare, Tool, Base, Tool over Base; all sign/offset conventions; sign 0 on J6 for dof 5) x joint vectors x differencing step in {1e-7,1e-6,1e-5} x twists/wrenches (|v|,|w| < 3) x length unit of the model (metres, or the same cell written in millimetres). \
          Non-trivial: condition number of the geometric Jacobian below 1e4 and (a wrapper present or a non-default sign pattern)."
             .into()
     }
@@ -90,10 +108,28 @@ impl Property for C15 {
             prop::array::uniform6(-3.0..3.0f64),
             prop_oneof![2 => Just(None), 1 => (prop::array::uniform6(prop_oneof![1 => Just(0.0), 1 => Just(1e-6), 3 => 0.01..2.0f64]), prop::array::uniform6(prop_oneof![1 => Just(0.0), 1 => Just(1e-6), 3 => 0.01..2.0f64])).prop_map(Some)],
             other_robot(DofChoice::Six, false),
+            prop_oneof![4 => Just(1.0f64), 1 => Just(1000.0f64)],
         )
-            .prop_map(|(robot, tool, base, j, eps, twist, window, other)| {
+            .prop_map(|(robot, tool, base, j, eps, mut twist, window, other, unit)| {
                 let other = resolve_other(&robot, other, false);
-                Case { robot, tool, base, j, eps, twist, window, other }
+                // the same cell written in another length unit (millimetres): every length and the linear part of the twist scale
+                let sc = |mut r: RobotSpec| {
+                    for x in [&mut r.a1, &mut r.a2, &mut r.b, &mut r.c1, &mut r.c2, &mut r.c3, &mut r.c4] {
+                        *x *= unit;
+                    }
+                    r
+                };
+                let sci = |mut t: IsoSpec| {
+                    for x in t.t.iter_mut() {
+                        *x *= unit;
+                    }
+                    t
+                };
+                for x in twist.iter_mut().take(3) {
+                    *x *= unit;
+                }
+                let (robot, other, tool, base) = (sc(robot), other.map(sc), tool.map(sci), base.map(sci));
+                Case { robot, tool, base, j, eps, twist, window, other, unit }
             })
             .boxed()
     }
@@ -194,25 +230,26 @@ impl Property for C15 {
             for i in 0..6 {
                 ensure!((t_iso[i] - tq[i]).abs() <= 1e-9 * (1.0 + reach) * (1.0 + fn_), "isometry- and vector-based torque entry points agree", "joint {}: {} vs {}", i + 1, t_iso[i], tq[i]);
             }
-            let s = svd_sigmas(&jgeo);
+            let s = svd_sigmas(&balanced(&jgeo, c.unit));
             let cond = s.0 / s.1.max(1e-300);
             if cond < 1e4 {
                 let v_iso = jac.velocities(&iso).map_err(|e| viol!("velocities succeeds for a well-conditioned Jacobian", "{}", e))?;
                 let v_vec = jac.velocities_from_vector(&f).map_err(|e| viol!("velocities_from_vector succeeds", "{}", e))?;
                 for i in 0..6 {
-                    ensure!((v_iso[i] - v_vec[i]).abs() <= 1e-9 * (1.0 + v_vec[i].abs()) * cond, "isometry- and vector-based velocity entry points agree", "joint {}: {} vs {}", i + 1, v_iso[i], v_vec[i]);
+                    ensure!((v_iso[i] - v_vec[i]).abs() <= 1e-9 * (1.0 + v_vec[i].abs()) * cond * c.unit, "isometry- and vector-based velocity entry points agree", "joint {}: {} vs {}", i + 1, v_iso[i], v_vec[i]);
                 }
             }
         }
         // velocities reproduce the twist through the Jacobian when it is well conditioned
-        let s = svd_sigmas(&jgeo);
+        // (conditioning is judged with the linear rows expressed in metres, so that it does not depend on the length unit of the model)
+        let s = svd_sigmas(&balanced(&jgeo, c.unit));
         let cond = s.0 / s.1.max(1e-300);
         if cond < 1e4 {
             let qd = jac.velocities_from_vector(&f).map_err(|e| viol!("velocities_from_vector succeeds for a well-conditioned Jacobian", "{}", e))?;
             let qdv = Vector6::from_column_slice(&qd);
             let back = jgeo * qdv;
             let err = (back - f).norm();
-            let bound = 6.0 * tol * qdv.norm() * 6.0 + 1e-9 * (1.0 + fn_);
+            let bound = 6.0 * tol * qdv.norm() * 6.0 + 1e-9 * c.unit * (1.0 + fn_);
             ensure!(err <= bound, "joint velocities returned for a twist reproduce that twist through the Jacobian", "|J qdot - X| = {:e} bound {:e} (cond {:e})", err, bound, cond);
             let fixed = jac.velocities_fixed(lin[0], lin[1], lin[2]).map_err(|e| viol!("velocities_fixed succeeds", "{}", e))?;
             let mut f0 = f;
@@ -223,7 +260,16 @@ impl Property for C15 {
             for i in 0..6 {
                 ensure!((fixed[i] - vf[i]).abs() <= 1e-9 * (1.0 + vf[i].abs()), "velocities_fixed(v) agrees with the vector form on [v;0]", "joint {}: {} vs {}", i + 1, fixed[i], vf[i]);
             }
+            // the rotational part on its own scale: the angular rows carry no length; allowed is what the measured difference between the library's and the
+            // geometric angular rows can contribute, plus the rounding of the solve
+            let err_w = (0..3).map(|i| (back[3 + i] - f[3 + i]).powi(2)).sum::<f64>().sqrt();
+            let dw = (0..3).map(|r| (0..6).map(|cc| (jnum[(3 + r, cc)] - jgeo[(3 + r, cc)]).powi(2)).sum::<f64>()).sum::<f64>().sqrt();
+            let bound_w = dw * qdv.norm() + 1e-12 * cond * c.unit * (1.0 + fn_) + 1e-12;
+            ensure!(err_w <= bound_w, "joint velocities returned for a twist reproduce the rotational part of that twist through the Jacobian", "|(J qdot - X)_w| = {:e} bound {:e} (cond {:e}, unit {})", err_w, bound_w, cond, c.unit);
             ctx.class("well-conditioned");
+            if c.unit != 1.0 {
+                ctx.class("model in millimetres, well-conditioned");
+            }
             let nondefault = r.signs.iter().any(|x| *x != 1) || c.tool.is_some() || c.base.is_some();
             if nondefault {
                 ctx.nontrivial();
